@@ -475,8 +475,8 @@ _RC_MEMO = {}
 
 def _range_rc(f):
     """The local that receives the result of check_empty_scan_range (if any)."""
-    if f.fid in _RC_MEMO:
-        return _RC_MEMO[f.fid]
+    if '_range_rc' in f.__dict__:
+        return f.__dict__['_range_rc']
     res = None
     for n in f.all_nodes():
         if n['k'] == 'DeclStmt':
@@ -485,7 +485,7 @@ def _range_rc(f):
                     i = f.strip(v['init'], casts=True)
                     if i is not None and is_call(i, cq='yakushima::check_empty_scan_range'):
                         res = v['id']
-    _RC_MEMO[f.fid] = res
+    f.__dict__['_range_rc'] = res
     return res
 
 
